@@ -473,15 +473,9 @@ class CorrData(AsciiSerializable, SampledData, Broadcastable):
 
             path_prefix = Path(path_prefix)
 
-            write_data(
-                path_prefix.with_suffix(".dat"),
-                self._description_data,
-                zleft=self.binning.left,
-                zright=self.binning.right,
-                data=self.data,
-                error=self.error,
-                closed=str(self.binning.closed),
-            )
+            # the .dat file is written last: if writing is interrupted, there is
+            # never a new .dat file next to samples of an earlier write
+            path_prefix.with_suffix(".dat").unlink(missing_ok=True)
 
             write_samples(
                 path_prefix.with_suffix(".smp"),
@@ -497,6 +491,16 @@ class CorrData(AsciiSerializable, SampledData, Broadcastable):
                 path_prefix.with_suffix(".cov"),
                 self._description_covariance,
                 covariance=self.covariance,
+            )
+
+            write_data(
+                path_prefix.with_suffix(".dat"),
+                self._description_data,
+                zleft=self.binning.left,
+                zright=self.binning.right,
+                data=self.data,
+                error=self.error,
+                closed=str(self.binning.closed),
             )
 
         parallel.COMM.Barrier()
